@@ -110,6 +110,9 @@ def line_break_test_of_safety_net(prog, rep, R):
               where=tests[0][0].where() if tests else None, instance={"pattern": sorted(tests[0][1]) if tests else []})
 
 
+P_PARSER = "pasfmt_core::defaults::parser::InternalDelphiLogicalLineParser::"
+
+
 def check_c02(prog, rep, tier, cfg):
     # ---------------------------------------------------------------- C02.a hard-break decision table
     R = "C02.a"
@@ -467,6 +470,17 @@ def check_c02(prog, rep, tier, cfg):
     # C02.n — a conditional directive ends where its expression ends (shared with C13.f): cut at the first `}` of a nested comment or literal,
     # its tail is scanned and formatted as code (breaks and blanks inside the directive, `AND` lower-cased, a stray quote absorbing code)
     _lx.c13f(prog, _Alias(rep, [("C13.f", r".", "C02.n")]))
+    # C02.p — a look-ahead of the parser that decides what a word IS (a directive of the routine in front, or the name of the next
+    # declaration) skips comments and compiler directives (`get_token_type::<N>()`): the raw neighbour by index is looked at only in
+    # reviewed places.  With a comment behind the name, a raw peek sees the comment, the word is taken for the directive and lower-cased.
+    RAW_PEEK = P_PARSER + "get_token_type_for_index"
+    REVIEWED_RAW_PEEKS = {"fix_next_eq": "re-types the `=` that follows a parameter's type; `=` is recognised by its own kind, a comment in between only leaves it untouched"}
+    peeks = [c for c in prog.who_calls(RAW_PEEK) if c.body.crate.startswith("pasfmt_core") and "::tests::" not in c.body.npath and c.body.npath != RAW_PEEK]
+    unrev = sorted({short(c.body.npath) for c in peeks if not any(k in c.body.npath for k in REVIEWED_RAW_PEEKS) and "get_token_type" not in c.body.npath.split("::")[-1]})
+    rep.check(not unrev, "C02.p", "raw-index-look-ahead-only-where-reviewed",
+              "%s looks at a neighbouring token by raw index (get_token_type_for_index) instead of through the comment-skipping look-ahead: with a comment in between it decides about the "
+              "word on the comment, a name spelled like a directive is re-typed as a keyword and lower-cased" % unrev, instance={"raw_peeks": sorted({short(c.body.npath) for c in peeks}), "reviewed": sorted(REVIEWED_RAW_PEEKS)})
+    rep.floor("C02.p", "raw-index look-aheads in the parser", len(peeks), 1)
     # C02.o — a character string is one token: a run of `#` character codes ends only where no `#` follows (shared with C13.k)
     _lx.c13k(prog, rep, "C02.o")
     # C02.m — what the user re-scans is the file pasfmt wrote: the formatted text reaches it through the encoder of the file's encoding
